@@ -284,9 +284,10 @@ CTX_FOR = {
 # the closing delimiter of a triple-quoted literal lines up with the line that carries the statement / header, i.e. the
 # number of blocks around that line: routine body 1, every enclosing block +1; `case menu(...)` sits inside the braces of
 # its switch (+1); a message-switch text sits inside the braces (+1) below its `case k:` (+1).  SsbScript is flat.
-# One context is at indent 0 on the unchanged tree: the header `switch ( Op(<string>, 1, 2) )` never sets `.indent`
-# (recorded as known finding multiline_trailing_blank_line_indent0); it is prescribed as 0 here so that this class
-# stays confined to that context -- a value with a blank last line that is lost in any OTHER context is unclassified.
+# The header `switch ( Op(<string>, 1, 2) )` sits on the line of its statement like an operation argument (before the /repo
+# fix "sets the indent of string parameters in switch and if headers" it never set `.indent` and printed at 0, where a value
+# with a blank last line is lost: known finding multiline_trailing_blank_line_indent0, now reachable only through a direct
+# call with indent 0) -- a value with a blank last line that is lost in ANY printing context is unclassified.
 LEAN_CTX = {"arg": "opArg", "arg2": "opArg", "inlinectx": "opArg", "menu": "menuHeader", "casetext": "msgText",
             "defaulttext": "msgText", "switchhdr": "switchHeader"}
 
@@ -296,7 +297,7 @@ def ctx_indent(ctx: str, depth: int, dec: str) -> int | None:
         return None
     if dec == "ssbs":
         return 1
-    return {"opArg": depth + 1, "menuHeader": depth + 2, "msgText": depth + 3, "switchHeader": 0}[LEAN_CTX[ctx]]
+    return {"opArg": depth + 1, "menuHeader": depth + 2, "msgText": depth + 3, "switchHeader": depth + 1}[LEAN_CTX[ctx]]
 
 
 def lean_ctx(ctx: str, dec: str) -> str:
